@@ -159,15 +159,33 @@ func c15Stream(o *out, r *rng, thorough bool) {
 	if thorough {
 		nOrders, maxN = 60, 8
 	}
-	for oi := 0; oi < nOrders; oi++ {
+	nReal := 2 // orders run against the REAL binary: its own listener wiring (limit inside, whitelist outside) is the object
+	if thorough {
+		nReal = 12
+	}
+	for oi := 0; oi < nOrders+nReal; oi++ {
 		N := 1 + r.intn(maxN)
 		wl := ""
-		if r.chance(50) {
+		if r.chance(50) || oi >= nOrders {
 			wl = "127.0.0.0/24" // sources 127.0.1.x are rejected arrivals
 		}
-		env, err := newTCPEnv(root, wl, N, 0)
-		if err != nil {
-			continue
+		var env *tcpEnv
+		var srv *srvProc
+		if oi >= nOrders {
+			var err error
+			srv, err = startServer(root, "", fmt.Sprintf("--max-clients=%d", N), "--client-whitelist="+wl)
+			if err != nil {
+				o.notes = append(o.notes, "real binary for c15: "+err.Error())
+				continue
+			}
+			env = &tcpEnv{addr: srv.addr(), root: root}
+			o.count("limit:real-binary")
+		} else {
+			var err error
+			env, err = newTCPEnv(root, wl, N, 0)
+			if err != nil {
+				continue
+			}
 		}
 		nClients := N + 1 + r.intn(2*N+1)
 		if nClients > 4*N {
@@ -217,7 +235,11 @@ func c15Stream(o *out, r *rng, thorough bool) {
 					live = append(live, i)
 				}
 			}
-			if arrived < nClients && (len(live) == 0 || r.chance(60)) {
+			arriveP := 60
+			if srv != nil {
+				arriveP = 92 // against the real binary: fill the server beyond its limit before anybody leaves
+			}
+			if arrived < nClients && (len(live) == 0 || r.chance(arriveP)) {
 				i := arrived
 				arrived++
 				inside := wl == "" || !r.chance(25)
@@ -252,7 +274,11 @@ func c15Stream(o *out, r *rng, thorough bool) {
 				c.c.Close()
 			}
 		}
-		env.close()
+		if srv != nil {
+			srv.stop()
+		} else {
+			env.close()
+		}
 		o.count(fmt.Sprintf("limit:N=%d", N))
 		o.emit(fmt.Sprintf("c15l %d %s", N, strings.Join(events, ",")), strings.Join(obsSeq, "|"), "", fmt.Sprintf("order%d", oi))
 	}
